@@ -406,6 +406,54 @@ def battery_history_sizes(seed, consts):
     return None
 
 
+def battery_history_after_panic(seed):
+    """'identical output no matter what was computed before' where the earlier call *panicked* (documented misuse, recovered
+    by the caller) or failed: in one process, a multi-scalar call with an uninitialized point at a late index / mismatched
+    lengths, then ordinary calls of several sizes; every ordinary result is compared with the stateless oracle"""
+    rng = random.Random(seed)
+    pts = bank(rng, 6)
+    ops, meta = [], []
+
+    def normal(op, n):
+        ks = [rng.choice([1, 2, rng.randrange(L)]) for _ in range(n)]
+        qs = [pts[rng.randrange(len(pts))] for _ in range(n)]
+        want = (0, 1)
+        init = {"v": "pt:zero"}
+        for j, (k_, q) in enumerate(zip(ks, qs)):
+            want = ref.ed_add(want, ref.ed_mul(k_, q))
+            init["k%d" % j] = scalar_words(k_)
+            init["q%d" % j] = mk_point(q, rng)
+        ops.append({"op": op, "args": ["v", "|".join("k%d" % j for j in range(n)), "|".join("q%d" % j for j in range(n))], "init": init})
+        meta.append((op, n, want))
+
+    def misuse(op, n, bad, short=False):
+        init = {"v": "pt:zero"}
+        for j in range(n):
+            init["k%d" % j] = scalar_words(rng.randrange(1, L))
+            init["q%d" % j] = "pt:zero" if j == bad else mk_point(pts[rng.randrange(len(pts))], rng)
+        ops.append({"op": op, "args": ["v", "|".join("k%d" % j for j in range(n)), "|".join("q%d" % j for j in range(n - 1 if short else n))], "init": init})
+        meta.append((op, n, None))
+    for op in ("P.VarTimeMultiScalarMult", "P.MultiScalarMult"):
+        for n, bad in ((3, 1), (3, 2), (5, 4), (9, 8), (12, 6)):
+            misuse(op, n, bad)
+            for m in (1, 2, n, 1):
+                normal(op, m)
+        misuse(op, 4, -1, short=True)
+        normal(op, 1)
+        normal(op, 3)
+    res = native.run_ops("", ops)
+    for (op, n, want), o, r in zip(meta, ops, res):
+        if want is None:
+            continue
+        if "panic" in r:
+            return dict(what="%s with %d valid terms panics after an earlier (recovered) misuse panic: %s" % (op, n, r["panic"]), op=op, args=o["args"], init=o["init"])
+        got = affine_of(r["slots"]["v"])
+        if got != want:
+            return dict(what="%s with %d terms after an earlier call that panicked (uninitialized point at a late index, recovered): result %s, expected %s (the result depends on the earlier, aborted call)" % (op, n, got, want),
+                        op=op, args=o["args"], init=o["init"])
+    return None
+
+
 def battery_decode_history(seed):
     """'identical output no matter what was computed before' for the byte-string setters (decoders are where memo tables
     and retained caller buffers live): in ONE process, sequences of decodes of *related* strings - the same caller buffer
